@@ -668,6 +668,9 @@ where
     /// or according to the `read_preamble` option on construction.
     pub fn read_preamble(&mut self) -> Result<Option<[u8; 128]>> {
         ensure!(self.state == CollectorState::Start, IllegalStateStartSnafu);
+        // the raw source is no longer available once the data set parser is in place
+        // (a collector created with an explicit transfer syntax skips preamble and file meta group)
+        ensure!(!self.source.has_parser(), IllegalStateStartSnafu);
 
         if self.read_preamble == ReadPreamble::Never {
             self.state = CollectorState::Preamble;
@@ -732,6 +735,7 @@ where
         }
 
         if self.state == CollectorState::Preamble {
+            ensure!(!self.source.has_parser(), IllegalStateMetaSnafu);
             let reader = self.source.raw_reader_mut();
             self.file_meta = Some(FileMetaTable::from_reader(reader).context(BuildMetaTableSnafu)?);
 
@@ -868,7 +872,9 @@ where
     /// use [`read_basic_offset_table`](Self::read_basic_offset_table)
     /// before reading any fragment.
     pub fn read_next_fragment(&mut self, to: &mut Vec<u8>) -> Result<Option<u32>> {
-        if self.state == CollectorState::Start || self.state == CollectorState::Preamble {
+        if (self.state == CollectorState::Start || self.state == CollectorState::Preamble)
+            && !self.source.has_parser()
+        {
             // read file meta information group
             self.read_file_meta()?;
         }
@@ -964,7 +970,9 @@ where
             return IllegalStateInPixelSnafu.fail().map_err(From::from);
         }
 
-        if self.state == CollectorState::Start || self.state == CollectorState::Preamble {
+        if (self.state == CollectorState::Start || self.state == CollectorState::Preamble)
+            && !self.source.has_parser()
+        {
             // read file meta information group
             self.read_file_meta()?;
         }
